@@ -881,7 +881,6 @@ func singleIteration(file *ast.File, fs *ast.ForStmt) bool {
 	return ok
 }
 
-
 // witnessDurationRegexp re-verifies why res[1..7] in DeserializeDuration is in
 // bounds: the pattern handed to regexp.MustCompile matches every string that
 // begins with 'P' (it is the literal P followed only by parts that may match
